@@ -555,7 +555,9 @@ class ZopeInterfaceClassPage(ClassPage):
         for interface in self.ob.allImplementedInterfaces:
             if interface in system.allobjects:
                 io = system.allobjects[interface]
-                assert isinstance(io, zopeinterface.ZopeInterfaceClass)
+                if not isinstance(io, zopeinterface.ZopeInterfaceClass):
+                    # Something that is not a class may be declared as implemented.
+                    continue
                 for io2 in io.mro():
                     method: Optional[model.Documentable] = io2.contents.get(methname)
                     if method is not None:
